@@ -15,6 +15,8 @@ Correspondence streams
                 (each node's event log is replayed through the model driver).
   e2e-history : (oracle) sequences of 4..10 packets on one internetwork whose caches start cold and
                 are never reset; every node log of it goes through e2e-node as well.
+  e2e-longburst: (oracle) cold caches, bursts of 1..100 packets for one (or two) unknown networks
+                handed down before the clock runs; node logs through e2e-node.
   e2e-world   : the STATEFUL simulator Route.runWorld vs the whole real internetwork for single
                 packets in any cache state: exact global frame sequence, caches, parked packets.
   e2e-global  : deliveries of the whole internetwork vs `deliverAll` (warm caches and
@@ -369,10 +371,17 @@ class RealNode:
         pdu = _APDU()
         APCI.update(pdu, dec)
         pdu.pduData = dec.pduData
-        pdu.pduDestination = mkaddr(dest)
+        ev = {"op": "send", "dest": dest, "er": er, "prio": prio, "data": data}
+        try:
+            pdu.pduDestination = mkaddr(dest)
+        except Exception as e:
+            # the address classes of the tree under test refuse this destination: nothing can be
+            # handed down; logged as an event whose only output is the refusal (the callers turn the
+            # refusal of a LEGAL network number into a property failure)
+            self.log.append((ev, [{"k": "refused", "e": type(e).__name__, "dest": dest}], self.digest()))
+            return self.log[-1][1]
         pdu.pduExpectingReply = er
         pdu.pduNetworkPriority = prio
-        ev = {"op": "send", "dest": dest, "er": er, "prio": prio, "data": data}
         if self.app is not None:
             return self.run_event(ev, lambda: self.app.request(pdu))
         return self.run_event(ev, lambda: self.nsap.indication(pdu))
@@ -381,6 +390,23 @@ class RealNode:
         fn = {"startup": self.nse.startup, "ask_nn": self.nse.what_is_network_number,
               "announce_nn": self.nse.network_number_is}[op]
         return self.run_event({"op": op}, fn)
+
+
+def refused(ctx, case, outs):
+    """did the address classes refuse the destination of this send?  A legal network number
+    (1..65534) must be accepted: report the failing input"""
+    for o in outs or []:
+        if o.get("k") == "refused":
+            d = o["dest"]
+            net = d[1] if d[0] in ("rs", "rb") else None
+            if net is not None and 1 <= net <= 65534:
+                ctx.fail("legal-network-refused", case,
+                         "legal network number %d refused by the address classes (%s) -> routed delivery to net %d "
+                         "impossible" % (net, o["e"], net), clause="exactly", net=net)
+            else:
+                ctx.fail("address-refused", case, "destination %r refused (%s)" % (d, o["e"]))
+            return True
+    return False
 
 
 def model_event(ev):
@@ -535,7 +561,8 @@ def hop_oracle(ctx, scenario, node, ev, outs, pre):
 # --------------------------------------------------------------------------
 # lockstep generator
 
-NETPOOL = [1, 2, 3, 4, 5, 7, 300, 65534]
+NETPOOL = [1, 2, 3, 4, 5, 7, 255, 256, 300, 65533, 65534]
+BOUNDARY_NETS = [1, 2, 255, 256, 65533, 65534]
 
 
 def gen_node_cfg(rng):
@@ -692,7 +719,9 @@ def run_lockstep_scenario(ctx, vt, scenario, oracle=True):
                 continue
             node.recv(ev["aid"], ev["src"], ev["dst"], ev["raw"])
         elif ev["op"] == "send":
-            node.send(ev["dest"], ev["er"], ev["prio"], ev["data"])
+            outs = node.send(ev["dest"], ev["er"], ev["prio"], ev["data"])
+            if refused(ctx, {"kind": "lockstep", "scenario": scenario, "event": ev}, outs):
+                continue
         elif ev["op"] == "fire":
             node.run_event({"op": "fire"}, lambda: vt.advance(20000.0))
         else:
@@ -711,7 +740,7 @@ def gen_parked(rng, cfg):
     cached = {e[1] for e in cfg.get("cache", [])}
     dn = rng.choice([n for n in (9, 10, 11, 12, 13) if n not in own and n not in cached])
     evs = []
-    for i in range(rng.choice([1, 2, 3])):
+    for i in range(rng.choice([1, 2, 3, 1, 2, 3, 16, 17, 40])):
         dest = ["rs", dn, rng.choice(MACS1[:8]).hex()] if rng.random() < 0.6 else ["rb", dn]
         evs.append({"op": "send", "dest": dest, "er": False, "prio": 0, "data": bytes([0x10, 8, i]).hex()})
     a = rng.choice(cfg["adapters"])
@@ -797,8 +826,13 @@ def gen_tree(rng, nn=None, shape="random"):
     shape: "random" | "line" (two-port routers in a row) | "hub" (2..3 routers on the first LAN,
     lines behind them)"""
     nn = nn or rng.randrange(2, 9)
-    pool = list(range(1, 40)) + [100, 255, 256, 4000, 65534]
+    pool = list(range(3, 40)) + [100, 4000]
     nets = rng.sample(pool, nn)
+    # boundary network numbers are used routinely: most internetworks contain 1..3 of them
+    if rng.random() < 0.8:
+        for pos, b in zip(rng.sample(range(nn), min(nn, rng.choice([1, 2, 3]))),
+                          rng.sample(BOUNDARY_NETS, 3)):
+            nets[pos] = b
     used = {n: set() for n in nets}
 
     def newmac(net):
@@ -1119,7 +1153,8 @@ def group_send_and_check(ctx, world, spec, case, items, dist, check=True):
     marks = [len(n.log) for n in world.nodes]
     world.frames = []
     for sidx, dest, pl in items:
-        world.nodes[sidx].send(dest, False, 0, pl)
+        outs = world.nodes[sidx].send(dest, False, 0, pl)
+        refused(ctx, case if len(items) == 1 else dict(case, packet=[sidx, dest, pl]), outs)
     ok = world.settle()
     if not ok:
         ctx.fail("no-quiescence", case, "the internetwork did not become quiet", clause="forwarding_terminates")
@@ -1179,7 +1214,8 @@ def do_replies(ctx, vt, world, spec, sc, case, sidx, got):
         rcase = dict(case, reply_from=list(key), reply_to=back)
         marks = [len(n.log) for n in world.nodes]
         world.frames = []
-        world.nodes[ridx].send(back, False, 0, "200108")
+        outs = world.nodes[ridx].send(back, False, 0, "200108")
+        refused(ctx, rcase, outs)
         if not world.settle():
             ctx.fail("no-quiescence", rcase, "reply: the internetwork did not become quiet")
             return False
@@ -1347,6 +1383,54 @@ def gen_tree_scenario(ctx, rng, exhaustive=False, nsends=4):
         combos = picked[:max(nsends, 5)]
     return {"spec": spec, "cache_mode": cache_mode, "learn": learn, "sends": combos, "burst": True,
             "reply": True, "max_replies": 2 if not exhaustive else 3}
+
+
+BURST_LENGTHS = [1, 2, 16, 17, 40, 100]
+
+
+def gen_longburst_scenario(ctx, rng, idx):
+    """cold caches, ONE station hands down a long burst for one not-yet-known remote network (or
+    two interleaved bursts for two unknown networks) before the clock runs: every packet is parked
+    behind the same discovery and every one of them must be delivered exactly once"""
+    shape = rng.choice(["line", "hub", "random"])
+    spec = gen_tree(rng, nn=rng.randrange(3, 8), shape=shape)
+    st = spec["stations"]
+    L = BURST_LENGTHS[idx % len(BURST_LENGTHS)]
+    a = rng.randrange(len(st))
+    far = [n for n in spec["nets"] if n != st[a][0]]
+    two = (idx // len(BURST_LENGTHS)) % 2 == 1 and len(far) >= 2
+    targets = rng.sample(far, 2 if two else 1)
+    mode = rng.choice(["rs", "rs", "rb", "mix"])
+    items = []
+    for i in range(L):
+        for j, d in enumerate(targets):
+            on = [x for x in st if x[0] == d]
+            if mode == "rb" or (mode == "mix" and i % 3 == 2):
+                dest = ["rb", d]
+            else:
+                t = on[i % len(on)]
+                dest = ["rs", d, t[1]]
+            items.append([a, dest, bytes([0x10, 8, 0xA0 + j, i >> 8, i & 255]).hex()])
+    return {"spec": spec, "items": items, "shape": shape, "len": L, "two": two}
+
+
+def run_longburst_scenario(ctx, vt, sc):
+    spec = sc["spec"]
+    first, dist = next_hops(spec)
+    vt.reset()
+    world = World(spec, "cold", vt)
+    world.prepare()
+    case = {"kind": "e2e-burst", "spec": spec, "items": sc["items"]}
+    items = [(a, d, p) for a, d, p in sc["items"]]
+    res = group_send_and_check(ctx, world, spec, case, items, dist)
+    nets = sorted({d[1] for _, d, _ in items})
+    ctx.count("e2e-longburst", (len(items) // max(1, len(nets)), len(nets), tuple(sorted({d[0] for _, d, _ in items}))))
+    if res is not None:
+        # one reply, from the first recipient of the last packet
+        sidx, d, pl = items[-1]
+        do_replies(ctx, vt, world, spec, {"cache_mode": "cold", "max_replies": 1}, dict(case, packet=[sidx, d, pl]),
+                   sidx, res[-1])
+    compare_logs(ctx, "e2e-node", world.nodes, case)
 
 
 def gen_history_scenario(ctx, rng):
@@ -1548,6 +1632,9 @@ def shard_e2e(ctx, spec):
         run_tree_scenario(ctx, vt, sc)
         if i == 0 and spec["shard"] == 0:
             ctx.sample({"stream": "e2e-history", "spec": sc["spec"], "sends": sc["sends"]})
+    for i in range(spec.get("longbursts", 0)):
+        sc = gen_longburst_scenario(ctx, rng, spec["shard"] + 16 * i)
+        run_longburst_scenario(ctx, vt, sc)
     for i in range(spec["cycles"]):
         sc = gen_cycle_scenario(ctx, rng)
         run_cycle_scenario(ctx, vt, sc)
@@ -1576,6 +1663,8 @@ def run_case(ctx, vt, case):
         elif case.get("burst") and "send" in case:
             sc["sends"] = [sc["sends"][0], sc["sends"][0]]     # the burst is the odd-numbered send
         run_tree_scenario(ctx, vt, sc)
+    elif kind == "e2e-burst":
+        run_longburst_scenario(ctx, vt, {"spec": fix_spec(case["spec"]), "items": case["items"]})
     elif kind == "cycle":
         sc = {"spec": fix_spec(case["spec"]), "send": case["send"],
               "caches": tables_from_list(case["caches"]) if case.get("caches") else None,
@@ -1628,13 +1717,13 @@ def run(ctx):
     run_corpus(ctx, vt)
     if ctx.quick:
         lock = [{"shard": i, "n": 60} for i in range(16)]
-        e2e = [{"shard": i, "trees": 6, "cycles": 3, "nsends": 5, "histories": 8} for i in range(16)]
+        e2e = [{"shard": i, "trees": 6, "cycles": 3, "nsends": 5, "histories": 8, "longbursts": 1} for i in range(16)]
     else:
         lock = [{"shard": i, "n": 2000} for i in range(16)]
         # every (source, kind, destination) on 4 trees per shard (capped at 250 sends each),
         # a sample of 12 sends on 100 more; 30 cyclic scenarios per shard
         e2e = [{"shard": i, "trees": 4, "cycles": 0, "exhaustive": True} for i in range(32)]
-        e2e += [{"shard": 100 + i, "trees": 100, "cycles": 30, "nsends": 12, "histories": 150} for i in range(32)]
+        e2e += [{"shard": 100 + i, "trees": 100, "cycles": 30, "nsends": 12, "histories": 150, "longbursts": 6} for i in range(32)]
     core.run_shards(ctx, "harness.c06", "shard_lockstep", lock)
     core.run_shards(ctx, "harness.c06", "shard_e2e", e2e)
 
@@ -1643,7 +1732,7 @@ def search(ctx):
     """focused failing-input search: more lockstep sequences and trees around the
     disagreeing shapes (the per-hop and end-to-end oracles run inside)"""
     lock = [{"shard": 1000 + i, "n": 200} for i in range(8)]
-    e2e = [{"shard": 1000 + i, "trees": 6, "cycles": 3, "nsends": 8, "histories": 20} for i in range(8)]
+    e2e = [{"shard": 1000 + i, "trees": 6, "cycles": 3, "nsends": 8, "histories": 20, "longbursts": 2} for i in range(8)]
     core.run_shards(ctx, "harness.c06", "shard_lockstep", lock)
     core.run_shards(ctx, "harness.c06", "shard_e2e", e2e)
 
